@@ -1,6 +1,8 @@
 package main
 
 import (
+	"fmt"
+	"os"
 	"sort"
 	"strconv"
 	"strings"
@@ -230,6 +232,12 @@ func (c *Ctx) simpSx(n *sx) *sx {
 				return n.kids[3]
 			}
 		}
+	case "select":
+		if len(n.kids) == 3 {
+			if r := c.forwardSelect(n.kids[1], n.kids[2]); r != nil {
+				return r
+			}
+		}
 	case "i.tid", "i.ref":
 		if len(n.kids) == 2 {
 			k := n.kids[1]
@@ -258,7 +266,7 @@ func (c *Ctx) simpSx(n *sx) *sx {
 }
 
 func (c *Ctx) simplify(t string) string {
-	if len(t) > 4000 {
+	if len(t) > 2000000 {
 		return t
 	}
 	return c.simpSx(parseSx(t)).String()
@@ -402,3 +410,179 @@ func shiftQuant(body, q, j string) (string, []string, bool) {
 }
 
 func sortStrings(a []string) { sort.Strings(a) }
+
+// Store forwarding. Byte buffers are written at constant offsets from one base term (base+k); a read at base+j
+// from an array defined (by construction, through named constants) as a chain of such stores is resolved here,
+// syntactically, to the value last stored at j or to a read of the oldest array in the chain: the solver is spared
+// walking chains of a thousand stores. Only definitional equalities are used, so the rewrite is an equivalence.
+type arrLink struct {
+	stores [][2]string // (index, value), oldest first
+	base   string      // array the stores were applied to
+}
+
+func splitIdx(t string) (base string, k int64, ok bool) {
+	n := parseSx(t)
+	if n.kids == nil {
+		if v, isn := n.num(); isn {
+			return "", v, true
+		}
+		return t, 0, true
+	}
+	if n.kids[0].atom != "+" {
+		return t, 0, true
+	}
+	var bases []string
+	var sum int64
+	var flat func(m *sx)
+	flat = func(m *sx) {
+		for _, kd := range m.kids[1:] {
+			if v, isn := kd.num(); isn {
+				sum += v
+			} else if kd.kids != nil && kd.kids[0].atom == "+" {
+				flat(kd)
+			} else {
+				bases = append(bases, kd.String())
+			}
+		}
+	}
+	flat(n)
+	if len(bases) > 1 {
+		return t, 0, true
+	}
+	if len(bases) == 0 {
+		return "", sum, true
+	}
+	return bases[0], sum, true
+}
+
+func (c *Ctx) chainOf(name string) *arrLink {
+	if l, ok := c.arrChain[name]; ok {
+		return l
+	}
+	def, ok := c.arrDef[name]
+	if !ok {
+		return nil
+	}
+	l := &arrLink{}
+	n := parseSx(def)
+	var st [][2]string
+	for n.kids != nil && len(n.kids) == 4 && n.kids[0].atom == "store" {
+		st = append(st, [2]string{n.kids[2].String(), n.kids[3].String()})
+		n = n.kids[1]
+	}
+	for i := len(st) - 1; i >= 0; i-- {
+		l.stores = append(l.stores, st[i])
+	}
+	l.base = n.String()
+	c.arrChain[name] = l
+	return l
+}
+
+func (c *Ctx) forwardSelect(arr, idx *sx) (res *sx) {
+	if os.Getenv("GOVC_DEBUGFWD") != "" {
+		defer func() {
+			r := "nil"
+			if res != nil {
+				r = res.String()
+				if len(r) > 120 {
+					r = r[:120]
+				}
+			}
+			as := arr.String()
+			if len(as) > 100 {
+				as = as[:100]
+			}
+			fmt.Fprintf(os.Stderr, "FWD %s @ %s => %s\n", as, idx.String(), r)
+		}()
+	}
+	a := arr.String()
+	// (select H ref) with H := (store B ref inner): the object's own array
+	if arr.kids != nil && len(arr.kids) == 3 && arr.kids[0].atom == "select" && arr.kids[1].kids == nil {
+		if d, ok := c.heapDef[arr.kids[1].atom]; ok && d[1] == arr.kids[2].String() {
+			a = d[2]
+		} else if _, isFrame := c.frameDef[arr.kids[1].atom]; !isFrame {
+			return nil
+		}
+	} else if arr.kids != nil {
+		return nil
+	}
+	jb, jk, _ := splitIdx(idx.String())
+	moved := false
+	// a heap havocked at a loop head with a stated loop frame: outside the element window of the target it is
+	// the heap at loop entry
+	if arr.kids != nil && len(arr.kids) == 3 && arr.kids[1].kids == nil {
+		h, ref := arr.kids[1].atom, arr.kids[2].String()
+		for guard := 0; guard < 8; guard++ {
+			fd, ok := c.frameDef[h]
+			if !ok {
+				break
+			}
+			outside := false
+			for _, t := range fd.targets {
+				if (t.heap == fd.heap || t.heap == "*") && t.ref == ref && t.lo != "" {
+					lb, lk, _ := splitIdx(t.lo)
+					hb, hk, _ := splitIdx(t.hi)
+					if lb == jb && hb == jb && (jk < lk || jk >= hk) {
+						outside = true
+					}
+				}
+			}
+			if !outside {
+				break
+			}
+			h = fd.old
+			moved = true
+		}
+		if moved {
+			if d, ok := c.heapDef[h]; ok && d[1] == ref {
+				a = d[2]
+			} else if hn := parseSx(h); hn.kids != nil && len(hn.kids) == 4 && hn.kids[0].atom == "store" && hn.kids[2].String() == ref {
+				a = hn.kids[3].String()
+			} else {
+				return &sx{kids: []*sx{atomSx("select"), &sx{kids: []*sx{atomSx("select"), atomSx(h), arr.kids[2]}}, idx}}
+			}
+		}
+	}
+	for steps := 0; steps < 4000; steps++ {
+		l := c.chainOf(a)
+		if l == nil {
+			break
+		}
+		hit := ""
+		undecided := false
+		for i := len(l.stores) - 1; i >= 0; i-- {
+			ib, ik, _ := splitIdx(l.stores[i][0])
+			if ib != jb {
+				undecided = true
+				break
+			}
+			if ik == jk {
+				hit = l.stores[i][1]
+				break
+			}
+		}
+		if undecided {
+			break
+		}
+		if hit != "" {
+			return parseSx(hit)
+		}
+		a = l.base
+		moved = true
+		// the base may itself be (select H ref) of an older heap
+		if strings.HasPrefix(a, "(select ") {
+			bn := parseSx(a)
+			if len(bn.kids) == 3 && bn.kids[1].kids == nil {
+				if d, ok := c.heapDef[bn.kids[1].atom]; ok && d[1] == bn.kids[2].String() {
+					a = d[2]
+					continue
+				}
+			}
+			break
+		}
+	}
+	if !moved {
+		return nil
+	}
+	return &sx{kids: []*sx{atomSx("select"), parseSx(a), idx}}
+}
